@@ -1,5 +1,5 @@
 """C11 — nearest neighbour picks the source pixel under each destination centre (clauses)."""
-from ..engines import axis, deps, index_rules
+from ..engines import axis, deps, index_rules, formulas
 from ..engines.index_rules import iter_source
 from ..engines.validators import closure_return
 from ..progs import programs
@@ -86,3 +86,4 @@ def run(rep, tier):
         rep.call(index_rules.nearest_index, rep, prog, "C11.index", strict=True)
         rep.call(copy_only, rep, prog, "C11.copy")
         rep.call(c07.nearest_no_alpha, rep, prog, "C11.no-alpha")
+        rep.call(formulas.nearest_formula, rep, prog, "C11.formula")
